@@ -280,4 +280,21 @@ theorem parseU64_hex (u : Bool) (n : Nat) (h : n ≤ U64_MAX) :
   rw [parseU64_of_digits 16 c r hc'.1, hp]
   simp [h]
 
+
+/-- every `u64` hexadecimal rendering is read as its 64-bit pattern -/
+theorem hexToI64_natDigits (u : Bool) (n : Nat) (h : n ≤ U64_MAX) :
+    hexToI64 (natDigits 16 u n) = .ok (wrapI64 n) := by
+  unfold hexToI64
+  by_cases hi : (n : Int) ≤ I64_MAX
+  · rw [parseI64_hex u n hi]
+    simp [wrapI64, hi]
+  · have hnone : parseI64 16 (natDigits 16 u n) = none := by
+      obtain ⟨c, r, hl, hc, _⟩ := natDigits_head 16 u (by omega) (hd16 u) n
+      have hp := parseDigits_natDigits16 u n
+      rw [hl] at hp ⊢
+      have hc' := isDigit16_plain hc
+      rw [parseI64_of_digits 16 c r hc'.1 hc'.2, hp]
+      simp [hi]
+    rw [hnone, parseU64_hex u n h]
+
 end CamVerif.XmlParse
